@@ -31,7 +31,7 @@ CONSTANTS Keep, OnlyN, OnlyF, OnlyQ      \* Only* = 99: no restriction (used to 
 Salt == IF "CONVSALT" \in DOMAIN IOEnv THEN atoi(IOEnv.CONVSALT) ELSE 0
 Fam(f, len) == CASE f = 1 -> [i \in 1 .. len |-> i - 1]
                  [] f = 2 -> [i \in 1 .. len |-> 3 * ((i - 1) \div 2) + ((i - 1) % 2)]                  \* 0 1 3 4 6 7 ...
-                 [] OTHER -> SubSeq(<<0, 2, 3, 6, 7, 8, 11, 13, 14, 17, 19, 20, 21, 24>>, 1, len)                   \* irregular steps 1..3
+                 [] OTHER -> SubSeq(<<0, 1, 2, 4, 5, 6, 8, 9, 10, 12, 13, 14, 16, 17>>, 1, len)                     \* steps 1 1 2
 SysSrc(n, f, extra, ci) ==
     LET len == 2 * n + 2 + extra
         nc == len - n - 1
@@ -44,6 +44,8 @@ SeqOfSet(S) == IF S = {} THEN <<>> ELSE LET m == CHOOSE x \in S : \A y \in S : x
 KernIds == {S \in SUBSET (1 .. Len(Lat)) : Cardinality(S) >= 2 /\ Cardinality(S) <= MaxKernel}
 Code(S) == LET RECURSIVE H(_) H(T) == IF T = {} THEN 0 ELSE LET m == CHOOSE x \in T : TRUE IN 2 ^ m + H(T \ {m}) IN H(S)
 
+(* largest order + kernel degree for which the exact arithmetic stays inside TLC's 32-bit integers, per knot family (probed) *)
+SumLimit(f, n) == IF MaxSum < 99 THEN MaxSum ELSE CASE f = 1 -> 7 [] f = 2 -> (IF n = 2 THEN 5 ELSE 6) [] OTHER -> (IF n <= 1 THEN 6 ELSE 5)
 VARIABLES src, kern
 (* src: a record [n, f, extra, ci]; f = 0 marks the hand-written catalogue entry Src(ci).  kern: {} (not chosen), {100 + k}   *)
 (* for the catalogue kernel Kern(k), or a set of lattice indices                                                            *)
@@ -55,9 +57,9 @@ Init == kern = {} /\
                 {x \in [n : 0 .. MaxOrder, f : 1 .. 3, extra : {0, 2}, ci : 0 .. 8] : x.ci <= (2 * x.n + 2 + x.extra) - x.n - 1 /\ OnlyN \in {99, x.n} /\ OnlyF \in {99, x.f}}
 Next == kern = {} /\ UNCHANGED src /\
         IF IsSys(src)
-        THEN kern' \in {S \in KernIds : src.n + Cardinality(S) - 1 <= MaxSum - (IF src.f = 3 THEN 1 ELSE 0) /\ OnlyQ \in {99, Cardinality(S) - 1}
+        THEN kern' \in {S \in KernIds : src.n + Cardinality(S) - 1 <= SumLimit(src.f, src.n) /\ OnlyQ \in {99, Cardinality(S) - 1}
                                          /\ (Code(S) + 7 * src.n + 3 * src.f + 5 * src.ci + src.extra + Salt) % Keep = 0}
-        ELSE kern' \in {{100 + k} : k \in {k \in 1 .. 7 : Len(Kern(k)) <= MaxKernel /\ Src(src.ci).n + Len(Kern(k)) - 1 <= MaxSum}}
+        ELSE kern' \in {{100 + k} : k \in {k \in 1 .. 7 : Len(Kern(k)) <= MaxKernel /\ Src(src.ci).n + Len(Kern(k)) - 1 <= (IF MaxSum < 99 THEN MaxSum ELSE 6)}}
 Spec == Init /\ [][Next]_<<src, kern>>
 RatJ(r) == <<r[1], r[2]>>
 Check == kern # {} =>
